@@ -19,7 +19,7 @@ def foldEq (a b : Str) : Bool := lower a == lower b
 /-- `stripFragment`: cut at the first '#', unless it is at index 0 (`p <= 0` keeps everything). -/
 def stripFragment : Str → Str
   | [] => []
-  | c :: r => c :: r.takeWhile (· != 35)
+  | c :: r => if c == 35 then c :: r else c :: r.takeWhile (· != 35)
 
 /-- suffix of `s` starting at the first occurrence of `pat`. -/
 def findSub (pat : Str) : Str → Option Str
